@@ -805,7 +805,7 @@ func genExpr(c *core.Ctx, depth int) string {
 func genAttrs(c *core.Ctx, n int, literalBias bool) []wattr {
 	var out []wattr
 	used := map[string]bool{"mytype": true, "targettype": true}
-	names := []string{"Name", "Cpus", "Memory", "Requirements", "Rank", "Owner", "Arch", "OpSys", "Disk", "State", "Activity", "LoadAvg", "KFlops", "Start", "x", "Y_2", "_z", "ClaimId", "_condor_privX", "JobUniverse", "Args", "Env", "Cmd", "Iwd"}
+	names := []string{"Name", "Cpus", "Memory", "Requirements", "Rank", "Owner", "Arch", "OpSys", "Disk", "State", "Activity", "LoadAvg", "KFlops", "Start", "x", "Y_2", "_z", "ClaimId", "_condor_privX", "JobUniverse", "Args", "Env", "Cmd", "Iwd", "ZKMa", "ZK", "Zeta", "zkm"}
 	for len(out) < n {
 		nm := names[c.Rng.Intn(len(names))]
 		if c.Rng.Intn(6) == 0 {
@@ -996,6 +996,13 @@ func gen(c *core.Ctx) error {
 		if err := wireCase(c, w); err != nil {
 			return err
 		}
+	}
+	// names and values that resemble the secret marker without being it
+	if err := wireCase(c, wire{Kind: "wire", Attrs: []wattr{{"ZKMa", `"ZKM"`}, {"ZK", "ZKM"}, {"Z", "1"}, {"ZKM_", `strcat("ZKM")`}}, My: "ZKM", Tg: "ZKMZKM"}); err != nil {
+		return err
+	}
+	if err := wireCase(c, wire{Kind: "wire", Raw: true, Pad: 1, Attrs: []wattr{{"ZKMa", `"ZKM"`}, {"ZK", "ZKM"}, {"ZKM", "2"}}, My: "ZKM"}); err != nil {
+		return err
 	}
 	// a type name as long as isTypeName allows
 	if err := wireCase(c, wire{Kind: "wire", Attrs: []wattr{{"Name", `"x"`}, {"Cpus", "4"}}, My: strings.Repeat("T", 128), Tg: strings.Repeat("j", 100)}); err != nil {
